@@ -196,12 +196,14 @@ def strand_semantics(repo: Repo, rep: Report) -> None:
             return EM.ExprWorld.denote(self, v, val)  # type: ignore[arg-type]
 
     den = Den()
-    for single_cycle in (False, True):
+    for single_cycle, prim in ((False, False), (True, False), (False, True), (True, True)):
+        # both settings of config.use_graph_primitive: the function must hand the same split graph and node flags to the
+        # connectivity constraint whichever way that constraint is then encoded
         try:
             bad = None
             total = 0
             for H, W in ((1, 1), (1, 2), (2, 1), (2, 2)):  # wide and tall lattices: the node numbering uses width as the row stride
-                inst = Instance(repo)
+                inst = Instance(repo, prim=prim)
                 fr = inst.w.cw.new("BoolGridFrame", inst.s, H, W)
                 captured: List[Any] = []
                 orig = inst.w.cw.genv["active_vertices_connected"]
@@ -316,9 +318,9 @@ def strand_semantics(repo: Repo, rep: Report) -> None:
                 if bad:
                     break
             if bad:
-                rep.finding("SPLIT", GRAPH, "active_edges_connected_crossable", f"split graph single_cycle={single_cycle}", bad)
+                rep.finding("SPLIT", GRAPH, "active_edges_connected_crossable", f"split graph single_cycle={single_cycle} primitive={prim}", bad)
             else:
-                rep.ok("SPLIT", f"single_cycle={single_cycle}: {total} degree-admissible segment subsets of the 1x1, 1x2, 2x1, 2x2 frames: split-graph connectivity == one strand", points=total)
+                rep.ok("SPLIT", f"single_cycle={single_cycle}, use_graph_primitive={prim}: {total} degree-admissible segment subsets of the 1x1, 1x2, 2x1, 2x2 frames: split-graph connectivity == one strand", points=total)
         except Undecided as ex:
             rep.undecide("SPLIT", str(ex))
         except (Raised, IndexOutOfRange) as ex:
